@@ -115,6 +115,14 @@ func genC06(seed uint64, tier string) *Plan {
 		// clock position relative to the period boundary
 		gq := genGroupedQuery(r, t, u)
 		gq.Sub = []Op{{K: "align", N: PickOne(r, []int64{0, 1, -1, int64(time.Millisecond), -int64(time.Millisecond), t.ResNanos / 2, r.Int64N(t.ResNanos)}), N2: t.ResNanos}}
+		if r.Bool(0.4) {
+			// an explicit window inside the data span, so that the oldest
+			// output period of a non-divisor period is partial AND holds points
+			sec := int64(time.Second)
+			until := -r.Int64N(span/2+1) / sec * sec
+			asOf := until - (1+r.Int64N(span))/sec*sec - sec
+			gq.Sub = append(gq.Sub, Op{K: "window", N: asOf, N2: until})
+		}
 		p.Ops = append(p.Ops, gq)
 	}
 	return p
@@ -336,7 +344,12 @@ func execC06(e *Env, p *Plan) error {
 				alignClock(e, op.Sub[0].N, op.Sub[0].N2)
 			}
 			mt := m.Tables[op.S]
-			sql := groupedSQL(op, mt.Def, "")
+			extra := ""
+			if len(op.Sub) > 1 && op.Sub[1].K == "window" {
+				extra = fmt.Sprintf(" ASOF '%s' UNTIL '%s'", absTime(op.Sub[1].N), absTime(op.Sub[1].N2))
+				e.Count("probe.explicit-window")
+			}
+			sql := groupedSQL(op, mt.Def, extra)
 			q := n.Query(sql, QOpts{IncludeMem: op.B})
 			if q.Panicked {
 				return &Violation{"panic-in-query", fmt.Sprintf("%q: %v", sql, q.Err)}
